@@ -109,16 +109,16 @@ static int jdf_sanity_check_global_masked(void)
         for(func = current_jdf.functions; func != NULL; func = func->next) {
             for(param = func->parameters; param != NULL; param = param->next) {
                 if( !strcmp(param->name, g->name) ) {
-                    jdf_warn(JDF_OBJECT_LINENO(func), "Global %s defined line %d is masked by the local parameter %s of function %s\n",
-                             g->name, JDF_OBJECT_LINENO(g), param->name, func->fname);
-                    rc++;
+                    jdf_fatal(JDF_OBJECT_LINENO(func), "Global %s defined line %d is masked by the local parameter %s of function %s\n",
+                              g->name, JDF_OBJECT_LINENO(g), param->name, func->fname);
+                    rc = -1;
                 }
             }
             for(d = func->locals; d != NULL; d = d->next) {
                 if( !strcmp(d->name, g->name) ) {
-                    jdf_warn(JDF_OBJECT_LINENO(d), "Global %s defined line %d is masked by the local definition of %s in function %s\n",
-                             g->name, JDF_OBJECT_LINENO(g), d->name, func->fname);
-                    rc++;
+                    jdf_fatal(JDF_OBJECT_LINENO(d), "Global %s defined line %d is masked by the local definition of %s in function %s\n",
+                              g->name, JDF_OBJECT_LINENO(g), d->name, func->fname);
+                    rc = -1;
                 }
             }
         }
@@ -1095,9 +1095,9 @@ int jdf_sanity_checks( jdf_warning_mask_t mask )
 
     DO_CHECK( jdf_sanity_check_global_redefinitions() );
     DO_CHECK( jdf_sanity_check_global_unbound() );
-    if( mask & JDF_WARN_MASKED_GLOBALS ) {
-        DO_CHECK( jdf_sanity_check_global_masked() );
-    }
+    /* Globals are #define'd in the generated file: a parameter or local of the same name can never
+     * compile, whatever the warning mask says. */
+    DO_CHECK( jdf_sanity_check_global_masked() );
 
     DO_CHECK( jdf_sanity_check_function_redefinitions() );
     DO_CHECK( jdf_sanity_check_parameters_are_consistent_with_definitions() );
